@@ -806,6 +806,31 @@ func (n *Node) Observe() []string {
 		}
 		out = append(out, sb.String())
 	}
+	// malformed arguments of the power query: the bytes of every operator under the account and the consensus prefix, the
+	// empty string, garbage, a truncated address — every one of them is an error, whoever the bytes belong to
+	{
+		bad := 0
+		first := "-"
+		try := func(label, a string) {
+			var res poa.QueryConsensusPowerResponse
+			if err := n.routedQuery("/strangelove_ventures.poa.v1.Query/ConsensusPower", &poa.QueryConsensusPowerRequest{ValidatorAddress: a}, &res); err == nil {
+				bad++
+				if first == "-" {
+					first = label
+				}
+			}
+		}
+		for op := 0; op < NOPS; op++ {
+			bz := []byte(w.Ops[op].Val)
+			try(fmt.Sprintf("acc-prefix-op%d", op), sdk.AccAddress(bz).String())
+			try(fmt.Sprintf("cons-prefix-op%d", op), sdk.ConsAddress(bz).String())
+			v := w.valStr(op)
+			try(fmt.Sprintf("truncated-op%d", op), v[:len(v)-3])
+		}
+		try("empty", "")
+		try("garbage", "not-an-address")
+		out = append(out, fmt.Sprintf("QMAL %d %s", bad, first))
+	}
 	// the pending-validators query, through the query server (what clients see), each consensus key unpacked
 	{
 		var sb strings.Builder
